@@ -9,6 +9,7 @@ CONSTANTS
   EstOf <- EstCold
   WithConsumer = FALSE
   WithSweeper = FALSE
+  KeepHist = FALSE
 INVARIANT NoViolation
 INVARIANT Inv_C01
 INVARIANT Inv_TypeOK
